@@ -224,4 +224,43 @@ def r4_expand(ctx):
             o["rule"] = "R4"
 
 
-RULES = [("R1", r1_confinement), ("R2", r2_only_adds), ("R3", r3_empty_dropped), ("R4", r4_expand)]
+def r5_setters(ctx):
+    for cfg, F in ctx.facts.items():
+        want = {"trim_text": {"trim_text_start", "trim_text_end"}, "enable_all_checks": {"check_comments", "check_end_names"}}
+        for fn, fields in want.items():
+            b = ctx.body(F, "reader::Config::" + fn, "R5")
+            if b is None:
+                continue
+            got = {}
+            for p in ctx.paths(b):
+                for e in p:
+                    if e[0] == "store":
+                        got[fields_of(e[2])[-1]] = e[3]
+            ok = set(got) == fields and all(v[0] == "arg" for v in got.values())
+            ctx.ob("R5", "Config::" + fn, ok, "%s(x) sets exactly %s to x: %s" % (fn, sorted(fields), {k: sym.show(v) for k, v in got.items()}), config=cfg)
+        d = F.bodies_with("reader::Config", "Default", end="default")
+        for b in d:
+            for p in ctx.paths(b):
+                r = ret_of(p)
+                if r is not None and r[0] == "agg":
+                    a = F.adt("reader::Config")
+                    names = [f["name"] for f in a["variants"][0]["fields"]]
+                    vals = {n: v[2] for n, v in zip(names, r[3]) if v[0] == "c"}
+                    ref = {"allow_unmatched_ends": False, "check_comments": False, "check_end_names": True, "expand_empty_elements": False,
+                           "trim_markup_names_in_closing_tags": True, "trim_text_start": False, "trim_text_end": False}
+                    ctx.ob("R5", "Config::default", vals == ref, "documented defaults: %s" % vals, config=cfg)
+        # who writes Config fields at all (outside Config's own impls): read_to_end! (save/restore) and the deserializer constructors
+        writers = set()
+        for b in F.bodies:
+            if is_derive(b):
+                continue
+            for _, st in b.stmts():
+                pl = st.get("p")
+                if pl and pl[1] and any(isinstance(e, dict) and e.get("of") == "quick_xml::reader::Config" for e in pl[1]):
+                    writers.add(sym.short(strip_generics(b.path).replace("::{closure#0}", "")))
+        allowed = {"Config::trim_text", "Config::enable_all_checks", "slice_reader::read_to_end", "buffered_reader::read_to_end_into", "async_tokio::read_to_end_into_async",
+                   "Deserializer::from_str_with_resolver", "Deserializer::with_resolver"}
+        ctx.ob("R5", "Config:writers", writers <= allowed, "only the documented setters, read_to_end! (save/restore) and the deserializer constructors write Config fields: %s" % sorted(writers - allowed), config=cfg)
+
+
+RULES = [("R1", r1_confinement), ("R2", r2_only_adds), ("R3", r3_empty_dropped), ("R4", r4_expand), ("R5", r5_setters)]
